@@ -4,6 +4,7 @@ package c19
 import (
 	"encoding/json"
 	"fmt"
+	"regexp"
 	"strings"
 	"testing"
 
@@ -163,9 +164,24 @@ var initPool = []string{"5", "0", "-3", "9223372036854775807", "2.5", `"str"`, `
 
 var otherVals = []string{"6", "0", `"other"`, "3.5", "false", "nil", "[9]", arr(9), `{"z": 1}`, mp(6), "x => x"}
 
-func isContainer(init string) bool { return strings.HasPrefix(init, "[") || strings.HasPrefix(init, "{") }
+func isContainer(init string) bool {
+	return strings.HasPrefix(init, "[") || strings.HasPrefix(init, "{")
+}
 func isBig(init string) bool {
 	return init == arr(9) || init == arr(10) || init == arr(20) || init == mp(5) || init == mp(6) || init == mp(20) || strings.HasPrefix(init, `{"k": [1, 2, 3, 4`)
+}
+
+var firstInt = regexp.MustCompile(`(^|[\[ :(-])([0-9]+)($|[\], }])`)
+
+func nearEqual(init string) string {
+	if strings.Contains(init, "=>") || strings.Contains(init, "func") {
+		return init
+	}
+	loc := firstInt.FindStringSubmatchIndex(init)
+	if loc == nil {
+		return init
+	}
+	return init[:loc[5]] + ".0" + init[loc[5]:]
 }
 
 func attempts(t *rapid.T, init string) (Step, bool) {
@@ -176,6 +192,16 @@ func attempts(t *rapid.T, init string) (Step, bool) {
 		func() Step { return Step{Src: N + " = " + v} },
 		func() Step { return Step{Src: N + " := " + v} },
 		func() Step { return Step{Src: N + " = " + init} }, // same value: allowed, unchanged
+		func() Step { // a value that only ranks equal: the first integer in it written as a float (5 -> 5.0, [1, 2] -> [1.0, 2])
+			if near := nearEqual(init); near != init {
+				nontrivial = true
+				if rapid.Bool().Draw(t, "nearinner") {
+					return Step{Src: "func(){ " + N + " = " + near + " }()"}
+				}
+				return Step{Src: N + " = " + near}
+			}
+			return Step{Src: N + " = " + init}
+		},
 		func() Step { return Step{Src: N + "++"} },
 		func() Step { return Step{Src: N + "--"} },
 		func() Step { return Step{Src: "++" + N} },
